@@ -375,6 +375,7 @@ def run(ctx, scratch):
             part_csv(ctx, impl, rng, quick, root)
             part_saveload(ctx, impl, rng, quick, root)
             part_graphml(ctx, impl, rng, quick, root)
+            part_graphml_model(ctx, impl, rng, quick, root)
     finally:
         shutil.rmtree(root, ignore_errors=True)
     ctx.rule = ('paths: random POSIX strings over {foo, foobar, fo, data, x, .., ., empty} with sibling-prefix pairs, relative and '
@@ -952,3 +953,535 @@ def part_graphml(ctx, impl, rng, quick, root):
         if k == 2:
             ctx.sample(dict(kind='graphml', text=text, impl=o), limit=7)
     shutil.rmtree(sub, ignore_errors=True)
+
+
+# ---------------------------------------------------------------------------------------------
+# Part D.2 — GraphML: abstract documents, serialised for real, model (vm_compute) vs from_graphml vs an
+#            independent reader of the standard
+# ---------------------------------------------------------------------------------------------
+GML_NS = 'http://graphml.graphdrawing.org/xmlns'
+XML_IDS = ['a&b', 'x<y', 'q"r', "it's", 'c>d', '&amp;', 'x y', 'n1', 'n10', 'A', 'a', 'B', 'node-7', 'é', '名', 'a]]>b', '<!--', "'", '0']
+ATTR_NAMES = ['color', 'size', 'flag', 'label', 'score', 'rank', 'note']
+GML_TYPES = ['boolean', 'int', 'long', 'float', 'double', 'string']
+
+
+def el(tag, attrs=(), text=None, children=()):
+    return (tag, list(attrs), text, list(children))
+
+
+def xml_text(s):
+    return s.replace('&', '&amp;').replace('<', '&lt;').replace('>', '&gt;')
+
+
+def xml_attr(s):
+    return xml_text(s).replace('"', '&quot;')
+
+
+def serialise(tree, ns=True, pretty=False):
+    """Abstract tree -> GraphML text, written by hand (no ElementTree on this side)."""
+    out = ['<?xml version="1.0" encoding="UTF-8"?>' + ('\n' if pretty else '')]
+
+    def rec(e, depth, top):
+        tag, attrs, text, children = e
+        pad = ('  ' * depth) if pretty else ''
+        a = ''.join(' %s="%s"' % (k, xml_attr(v)) for k, v in attrs)
+        if top and ns:
+            a = ' xmlns="%s"' % GML_NS + a
+        nl = '\n' if pretty else ''
+        if not children and text is None:
+            out.append('%s<%s%s/>%s' % (pad, tag, a, nl))
+        elif not children:
+            out.append('%s<%s%s>%s</%s>%s' % (pad, tag, a, xml_text(text), tag, nl))
+        else:
+            out.append('%s<%s%s>%s' % (pad, tag, a, nl))
+            for c in children:
+                rec(c, depth + 1, False)
+            out.append('%s</%s>%s' % (pad, tag, nl))
+    rec(tree, 0, True)
+    return ''.join(out)
+
+
+def et_tree(text):
+    """What ElementTree hands to the code: (tag with namespace, attributes in order, text, children)."""
+    from xml.etree import ElementTree
+
+    def conv(e):
+        return (e.tag, list(e.attrib.items()), e.text, [conv(c) for c in e])
+    return conv(ElementTree.fromstring(text.encode('utf-8')))
+
+
+def same_tree(gen, parsed, ns):
+    """The serialiser round-trips through ElementTree (whitespace between child elements apart)."""
+    tag, attrs, text, children = gen
+    ptag, pattrs, ptext, pchildren = parsed
+    if ptag != ('{%s}%s' % (GML_NS, tag) if ns else tag) or pattrs != attrs or len(children) != len(pchildren):
+        return False
+    if children:
+        if ptext is not None and ptext.strip() != '':
+            return False
+    elif (ptext or None) != (text or None):      # an empty text comes back as None
+        return False
+    return all(same_tree(c, pc, ns) for c, pc in zip(children, pchildren))
+
+
+def coq_xml(t):
+    tag, attrs, text, children = t
+    return '(Elem %s %s %s %s)' % (cstr(tag), clist(attrs, lambda kv: '(%s, %s)' % (cstr(kv[0]), cstr(kv[1]))),
+                                   copt(text, cstr), clist([coq_xml(c) for c in children]))
+
+
+# -- independent reader of the standard (the property oracle); works on the abstract tree, never on the code's data structures
+def gml_reading(tree, weight_key='weight'):
+    """Nodes, edges, weights and direction as the GraphML standard reads them. None when the document leaves the
+    weight key ambiguous (two edge keys with the weight name)."""
+    keys = [c for c in tree[3] if c[0] == 'key']
+    graphs = [c for c in tree[3] if c[0] == 'graph']
+    g = graphs[0]
+    ga = dict(g[1])
+    wkeys = [k for k in keys if dict(k[1]).get('attr.name') == weight_key and dict(k[1]).get('for', 'all') in ('edge', 'all')]
+    if len(wkeys) > 1:
+        return None
+    wtype, wid, wdefault = None, None, None
+    if wkeys:
+        ka = dict(wkeys[0][1])
+        wtype, wid = ka['attr.type'], ka['id']
+        for c in wkeys[0][3]:
+            if c[0] == 'default':
+                wdefault = c[2]
+
+    def conv(text):
+        if wtype == 'boolean':
+            return Fraction(1 if (text or '').strip() in ('true', '1') else 0)
+        return Fraction((text or '').strip())
+    nodes = [c for c in g[3] if c[0] == 'node']
+    ids = [dict(c[1])['id'] for c in nodes]
+    canonical = ga.get('parse.nodeids') == 'canonical'
+    index = {x: (int(x[1:]) if canonical else k) for k, x in enumerate(ids)}
+    n = len(ids)
+    listed = {}
+    for e in (c for c in g[3] if c[0] == 'edge'):
+        ea = dict(e[1])
+        i, j = index[ea['source']], index[ea['target']]
+        mirrored = (ea['directed'] != 'true') if 'directed' in ea else (ga['edgedefault'] == 'undirected')
+        texts = [c[2] for c in e[3] if c[0] == 'data' and dict(c[1]).get('key') == wid and wid is not None]
+        w = conv(texts[-1]) if texts else (conv(wdefault) if wdefault is not None else Fraction(1))
+        listed.setdefault((i, j), []).append(w)
+        if mirrored:
+            listed.setdefault((j, i), []).append(w)
+    boolean = wtype in (None, 'boolean')
+    dense = [[(Fraction(int(any(x != 0 for x in listed.get((i, j), [])))) if boolean else sum(listed.get((i, j), []), Fraction(0)))
+              for j in range(n)] for i in range(n)]
+    return dict(n=n, names=None if canonical else ids, dense=dense)
+
+
+LIT = {'int': ['0', '1', '2', '3', '7', '-1', '-4', '12'], 'long': ['0', '1', '5', '-2', '40'],
+       'float': ['0.5', '1.5', '2', '0.25', '-0.75', '3.0', '0', '10.125'], 'double': ['0.5', '2.25', '1', '-1.5', '0.0', '8', '.5', '4.'],
+       'boolean': ['true', 'false', '1', '0'], 'string': ['red', 'x&y', 'a<b', 'two words', 'None', 'é', '0', 'long-' * 3]}
+
+
+def gen_gml(rng, n=None, m=None, opts=None):
+    """One abstract document inside the documented input space (one graph, declared nodes, keys with id / for /
+    attr.name / attr.type, literals of the declared type). Returns (tree, call options, tags)."""
+    o = dict(opts or {})
+    n = rng.randint(0, 6) if n is None else n
+    canonical = o.get('canonical', rng.random() < 0.15)
+    long_id = not canonical and n > 0 and rng.random() < 0.03
+    ids = ['n%d' % i for i in range(n)] if canonical or rng.random() < 0.3 else rng.sample(XML_IDS, n)
+    if long_id:
+        ids[0] = 'L' + 'x' * 600
+    undirected = o.get('undirected', rng.random() < 0.5)
+    wname = 'cost' if rng.random() < 0.12 else 'weight'
+    wtype = o.get('wtype', rng.choice([None, None, 'int', 'int', 'double', 'float', 'long', 'boolean_true']))
+    kid = [0]
+
+    def new_id():
+        kid[0] += 1
+        return 'd%d' % (kid[0] - 1)
+    keys = []
+    wid = None
+    if wtype:
+        wid = new_id()
+        jt = 'boolean' if wtype == 'boolean_true' else wtype
+        ch = []
+        if rng.random() < 0.5:
+            ch.append(el('default', [], 'true' if jt == 'boolean' else rng.choice(LIT[jt])))
+        if rng.random() < 0.15:
+            ch.insert(0, el('desc', [], 'the weight'))
+        keys.append(el('key', [('id', wid), ('for', rng.choice(['edge', 'edge', 'all'])), ('attr.name', wname), ('attr.type', jt)], None, ch))
+    cols = {'node': [], 'edge': []}
+    for dom in ('node', 'edge'):
+        names = rng.sample(ATTR_NAMES + (['weight'] if wname != 'weight' else []), rng.choice([0, 0, 1, 2, 3]))
+        for nm in names:
+            ty = rng.choice(GML_TYPES)
+            ch = []
+            if rng.random() < 0.2:
+                ch.append(el('desc', [], rng.choice(['about ' + nm, None, ''])))
+            if rng.random() < 0.5:
+                ch.append(el('default', [], rng.choice(LIT[ty] + ([None, ''] if ty in ('string', 'boolean') else []))))
+            k = new_id()
+            attrs = [('id', k), ('for', dom), ('attr.name', nm), ('attr.type', ty)]
+            rng.shuffle(attrs)
+            keys.append(el('key', attrs, None, ch))
+            cols[dom].append((k, ty))
+    if rng.random() < 0.1:
+        keys.append(el('key', [('id', new_id()), ('for', rng.choice(['graph', 'all'])), ('attr.name', 'misc'), ('attr.type', 'string')]))
+    rng.shuffle(keys)
+
+    def data_children(dom, extra=()):
+        ch = []
+        for k, ty in cols[dom]:
+            for _ in range(rng.choice([0, 0, 1, 1, 2]) if rng.random() < 0.15 else rng.choice([0, 1])):
+                ch.append(el('data', [('key', k)], rng.choice(LIT[ty] + ([None] if ty in ('string', 'boolean') else []))))
+        ch += list(extra)
+        rng.shuffle(ch)
+        return ch
+    nodes = []
+    for i in range(n):
+        ch = data_children('node')
+        if rng.random() < 0.05:
+            ch.append(el('port', [('name', 'p')]))
+        nodes.append(el('node', [('id', ids[i])], None, ch))
+    m = (rng.randint(0, 10) if n else 0) if m is None else m
+    edges = []
+    pairs = []
+    for _ in range(m):
+        u = rng.random()
+        if pairs and u < 0.2:
+            a, b = rng.choice(pairs)                     # duplicate
+        elif pairs and u < 0.4:
+            b, a = rng.choice(pairs)                     # reversed
+        elif u < 0.5:
+            a = b = rng.randrange(n)                     # self-loop
+        else:
+            a, b = rng.randrange(n), rng.randrange(n)
+        pairs.append((a, b))
+        attrs = [('source', ids[a]), ('target', ids[b])]
+        if rng.random() < 0.3:
+            attrs.append(('directed', rng.choice(['true', 'false'])))
+        if rng.random() < 0.2:
+            attrs.insert(0, ('id', 'e%d' % len(edges)))
+        extra = []
+        if wid is not None and rng.random() < 0.6:
+            jt = 'boolean' if wtype == 'boolean_true' else wtype
+            for _ in range(2 if rng.random() < 0.1 else 1):
+                extra.append(el('data', [('key', wid)], rng.choice(['true', '1']) if jt == 'boolean' else rng.choice(LIT[jt])))
+        edges.append(el('edge', attrs, None, data_children('edge', extra)))
+    body = nodes + edges
+    if rng.random() < 0.2:
+        rng.shuffle(body)
+    if rng.random() < 0.05:
+        body.insert(0, el('data', [('key', 'd0')], 'graph level'))
+    gattrs = [('id', 'G'), ('edgedefault', 'undirected' if undirected else 'directed')]
+    if canonical:
+        gattrs.append(('parse.nodeids', 'canonical'))
+    elif rng.random() < 0.1:
+        gattrs.append(('parse.nodeids', 'free'))
+    graph = el('graph', gattrs, None, body)
+    top = list(keys)
+    if rng.random() < 0.15:
+        top.insert(rng.randrange(len(top) + 1), el('desc', [], rng.choice(['a test graph', None, ''])))
+    pos = len(top) if rng.random() < 0.8 else rng.randrange(len(top) + 1)
+    top.insert(pos, graph)
+    tree = el('graphml', [], None, top)
+    call = dict(weight_key=None if wname == 'weight' else wname, max_string_size=o.get('mss', 3 if rng.random() < 0.08 else None))
+    tags = dict(n=n, m=m, undirected=undirected, canonical=canonical, wtype=wtype, long_id=long_id)
+    return tree, call, tags
+
+
+def gml_fixed_families():
+    """Hand-made documents: (family, tree, call options, in_quantifier). The shapes the model was written around."""
+    def doc(keys, gattrs, body, extra_top=()):
+        return el('graphml', [], None, list(keys) + [el('graph', gattrs, None, body)] + list(extra_top))
+    D, U = [('edgedefault', 'directed')], [('edgedefault', 'undirected')]
+    nd = [el('node', [('id', x)]) for x in 'abc']
+
+    def e(s, t, w=None, wid='d0', **a):
+        return el('edge', [('source', s), ('target', t)] + sorted(a.items()), None, [el('data', [('key', wid)], w)] if w is not None else [])
+    wint = el('key', [('id', 'd0'), ('for', 'edge'), ('attr.name', 'weight'), ('attr.type', 'int')], None, [el('default', [], '2')])
+    wdbl = el('key', [('id', 'd0'), ('for', 'edge'), ('attr.name', 'weight'), ('attr.type', 'double')])
+    out = []
+    out.append(('duplicates_selfloops', doc([], U, nd + [e('a', 'b'), e('a', 'b'), e('b', 'a'), e('c', 'c')]), {}, True))
+    out.append(('duplicates_selfloops', doc([wint], U, nd + [e('a', 'b', '3'), e('a', 'b'), e('b', 'a', '5'), e('c', 'c')]), {}, True))
+    out.append(('duplicates_selfloops', doc([wint], D, nd + [e('a', 'b', '3'), e('a', 'b'), e('b', 'a', '5'), e('c', 'c'), e('c', 'a', '0'), e('b', 'c', '-2'), e('b', 'c', '2')]), {}, True))
+    out.append(('edge_directed_attribute', doc([wdbl], D, nd + [e('a', 'b', '1.5', directed='false'), e('b', 'c'), e('c', 'a', '0.25', directed='true')]), {}, True))
+    out.append(('edge_directed_attribute', doc([wdbl], U, nd + [e('a', 'b', '1.5', directed='true'), e('b', 'c'), e('c', 'a', '0.25', directed='maybe')]), {}, True))
+    out.append(('node_order', doc([], D, [e('a', 'b'), nd[0], e('b', 'c'), nd[1], nd[2]]), {}, True))
+    out.append(('node_order', el('graphml', [], None, [el('graph', D, None, nd + [e('a', 'b')]), wint]), {}, True))
+    out.append(('empty', doc([], D, []), {}, True))
+    out.append(('empty', doc([wint], U, [nd[0]]), {}, True))
+    out.append(('canonical', doc([], D + [('parse.nodeids', 'canonical')], [el('node', [('id', 'n%d' % k)]) for k in (0, 1, 2)] + [e('n2', 'n0')]), {}, True))
+    out.append(('canonical', doc([], U + [('parse.nodeids', 'canonical')], [el('node', [('id', 'n%d' % k)]) for k in (1, 0, 2)] + [e('n2', 'n0'), e('n1', 'n1')]), {}, True))
+    out.append(('long_weights', doc([el('key', [('id', 'd0'), ('for', 'edge'), ('attr.name', 'weight'), ('attr.type', 'long')])], D, nd + [e('a', 'b', '3'), e('a', 'b', ' 4 ')]), {}, True))
+    out.append(('multi_weight_data', doc([wint], D, nd + [el('edge', [('source', 'a'), ('target', 'b')], None,
+                                                         [el('data', [('key', 'd0')], '2'), el('data', [('key', 'd0')], '5')])]), {}, True))
+    out.append(('weight_key_argument', doc([wint, el('key', [('id', 'd1'), ('for', 'edge'), ('attr.name', 'cost'), ('attr.type', 'double')])], D,
+                                           nd + [el('edge', [('source', 'a'), ('target', 'b')], None,
+                                                    [el('data', [('key', 'd0')], '2'), el('data', [('key', 'd1')], '0.5')])]), dict(weight_key='cost'), True))
+    attrs = [el('key', [('id', 'd0'), ('for', 'node'), ('attr.name', 'color'), ('attr.type', 'string')], None, [el('default', [], 'yellow')]),
+             el('key', [('id', 'd1'), ('for', 'node'), ('attr.name', 'flag'), ('attr.type', 'boolean')], None, [el('default', [], 'false')]),
+             el('key', [('id', 'd2'), ('for', 'node'), ('attr.name', 'cnt'), ('attr.type', 'int')], None, [el('default', [], '7')]),
+             el('key', [('id', 'd3'), ('for', 'edge'), ('attr.name', 'len'), ('attr.type', 'double')], None, [el('default', [], '0.5')]),
+             el('key', [('id', 'd4'), ('for', 'edge'), ('attr.name', 'lab'), ('attr.type', 'string')]),
+             el('key', [('id', 'd5'), ('for', 'node'), ('attr.name', 'emp'), ('attr.type', 'string')], None, [el('default', [], None)]),
+             el('key', [('id', 'd6'), ('for', 'edge'), ('attr.name', 'n'), ('attr.type', 'long')], None, [el('desc', [], 'a long')]),
+             el('desc', [], 'file desc')]
+    body = [el('node', [('id', 'a')], None, [el('data', [('key', 'd0')], 'green'), el('data', [('key', 'd1')], 'false')]),
+            el('node', [('id', 'b')], None, [el('data', [('key', 'd2')], '3'), el('data', [('key', 'd0')], None)]),
+            el('edge', [('source', 'a'), ('target', 'b')], None, [el('data', [('key', 'd3')], '1.25'), el('data', [('key', 'd4')], 'x&y'), el('data', [('key', 'd6')], '4')]),
+            el('edge', [('source', 'b'), ('target', 'a'), ('directed', 'true')])]
+    out.append(('attributes', doc(attrs, U, body), {}, True))
+    out.append(('attributes', doc(attrs, U, body), dict(max_string_size=4), True))
+    out.append(('attributes', doc([el('key', [('id', 'd0'), ('for', 'node'), ('attr.name', 's'), ('attr.type', 'string')], None, [el('desc', [], None)])], D, [nd[0]],
+                                  [el('desc', [], None)]), {}, True))
+    # legal documents on which the code does not keep the weights (reported): the model follows the code, the reader does not
+    nodew = el('key', [('id', 'd0'), ('for', 'node'), ('attr.name', 'weight'), ('attr.type', 'double')], None, [el('default', [], '5')])
+    out.append(('node_key_named_weight', doc([nodew], D, nd[:2] + [e('a', 'b')]), {}, True))
+    out.append(('node_key_named_weight', doc([nodew, el('key', [('id', 'd1'), ('for', 'edge'), ('attr.name', 'weight'), ('attr.type', 'int')])], D,
+                                            nd[:2] + [e('a', 'b', '3', wid='d1'), e('b', 'a', wid='d1')]), {}, True))
+    out.append(('node_key_named_weight', doc([el('key', [('id', 'd1'), ('for', 'edge'), ('attr.name', 'weight'), ('attr.type', 'int')]), nodew], D,
+                                            nd[:2] + [e('a', 'b', '3', wid='d1')]), {}, True))
+    wbool = el('key', [('id', 'd0'), ('for', 'edge'), ('attr.name', 'weight'), ('attr.type', 'boolean')])
+    out.append(('boolean_weight', doc([wbool], D, nd[:2] + [e('a', 'b', 'false'), e('b', 'a', 'true')]), {}, True))
+    out.append(('boolean_weight', doc([el('key', wbool[1], None, [el('default', [], 'false')])], U, nd + [e('a', 'b'), e('b', 'c', 'true'), e('c', 'a', '0')]), {}, True))
+    # outside the documented input space: the exception class is compared with the model's
+    bad = []
+    bad.append(doc([], D, [nd[0], e('a', 'zz')]))                                                   # undeclared node
+    bad.append(doc([], [], nd[:2] + [e('a', 'b')]))                                                 # no edgedefault
+    bad.append(el('graphml', [], None, [wint]))                                                     # no graph
+    bad.append(doc([wint], D, nd[:2] + [e('a', 'b', '1.5')]))                                       # int literal
+    bad.append(doc([wint], D, nd[:2] + [e('a', 'b', 'x')]))
+    bad.append(doc([wint], D, nd[:2] + [el('edge', [('source', 'a'), ('target', 'b')], None, [el('data', [('key', 'd0')], None)])]))
+    bad.append(doc([wdbl], D, nd[:2] + [el('edge', [('source', 'a'), ('target', 'b')], None, [el('data', [('key', 'd0')], None)])]))
+    bad.append(doc([wint], D, nd[:2] + [e('a', 'b', '1', wid='nokey')]))                             # unknown key
+    bad.append(doc([wint], D, nd[:2] + [el('edge', [('source', 'a'), ('target', 'b')], None, [el('data', [], '1')])]))
+    ek = el('key', [('id', 'd1'), ('for', 'edge'), ('attr.name', 'zz'), ('attr.type', 'int')])
+    nk = el('key', [('id', 'd2'), ('for', 'node'), ('attr.name', 'yy'), ('attr.type', 'int')])
+    bad.append(doc([ek], D, [el('node', [('id', 'a')], None, [el('data', [('key', 'd1')], '1')])]))  # node data on an edge key
+    bad.append(doc([ek, nk], D, [el('node', [('id', 'a')], None, [el('data', [('key', 'd1')], '1')])]))
+    bad.append(doc([nk], D, nd[:2] + [e('a', 'b', '1', wid='d2')]))
+    bad.append(doc([el('key', [('id', 'd1'), ('for', 'node'), ('attr.type', 'int')])], D, [nd[0]]))  # key without attr.name
+    bad.append(doc([el('key', [('id', 'd1'), ('attr.name', 'c'), ('attr.type', 'int')])], D, [nd[0]]))   # key without for
+    bad.append(doc([el('key', [('for', 'node'), ('attr.name', 'c'), ('attr.type', 'int')])], D, [nd[0]]))  # key without id
+    bad.append(doc([el('key', [('id', 'd1'), ('for', 'node'), ('attr.name', 'c')])], D, [nd[0]]))
+    bad.append(doc([], D + [('parse.nodeids', 'canonical')], [el('node', [('id', 'n0')]), el('node', [('id', 'n1')]), e('n2', 'n0')]))
+    bad.append(doc([], D + [('parse.nodeids', 'canonical')], [el('node', [('id', 'n0')]), el('node', [('id', 'n1')]), e('n-1', 'n0')]))
+    bad.append(doc([], D + [('parse.nodeids', 'canonical')], [el('node', [('id', 'n0')]), el('node', [('id', 'n1')]), e('nx', 'n0')]))
+    sk = el('key', [('id', 'd1'), ('for', 'edge'), ('attr.name', 'zz'), ('attr.type', 'short')])
+    bad.append(doc([sk], D, nd[:2] + [e('a', 'b')]))                                                 # unknown attr.type, unused: float zeros
+    bad.append(doc([sk], D, nd[:2] + [e('a', 'b', '1', wid='d1')]))
+    bad.append(doc([el('key', [('id', 'd0'), ('for', 'edge'), ('attr.name', 'weight'), ('attr.type', 'string')])], D, nd[:2] + [e('a', 'b', '3')]))
+    bad.append(doc([el('key', [('id', 'd0'), ('for', 'edge'), ('attr.name', 'weight'), ('attr.type', 'short')])], D, nd[:2] + [e('a', 'b')]))
+    bad.append(doc([], D, nd[:2] + [el('hyperedge', [], None, [el('endpoint', [('node', 'a')])])]))
+    bad.append(el('graphml', [], None, [el('graph', D, None, nd[:2] + [e('a', 'b')]), el('graph', D, None, nd + [e('a', 'c')])]))   # two graphs
+    bad.append(el('graphml', [], None, [el('graph', D, None, nd[:2] + [e('a', 'b')]), el('graph', U, None, [e('a', 'c')] + nd)]))
+    bad.append(doc([], D, [el('node', []), nd[1]]))                                                  # node without id
+    bad.append(doc([], D, nd[:2] + [el('edge', [('source', 'a')])]))
+    bad.append(doc([], D, [nd[0], nd[1], nd[0], e('a', 'b')]))                                       # duplicate ids: the last one wins
+    for b in bad:
+        out.append(('malformed', b, {}, False))
+    return out
+
+
+def gml_small_exhaustive():
+    """Every document with <= 2 nodes and <= 2 edges over all ordered pairs (self-loops, duplicates, reversed pairs) x
+    directed / undirected x {no weight key, int key with default 2, double key without default} x per edge
+    {no data, weight data, weight data + the opposite directed override}."""
+    out = []
+    for n in (0, 1, 2):
+        ids = ['a', 'b'][:n]
+        pairs = [(a, b) for a in ids for b in ids]
+        elists = [[]] + [[p] for p in pairs] + [[p, q] for p in pairs for q in pairs]
+        for und in (False, True):
+            for wk in (None, 'int', 'double'):
+                key = [] if wk is None else [el('key', [('id', 'w'), ('for', 'edge'), ('attr.name', 'weight'), ('attr.type', wk)], None,
+                                                 [el('default', [], '2')] if wk == 'int' else [])]
+                modes = [0] if wk is None else [0, 1, 2]
+                if wk is None:
+                    modes = [0, 2]
+                for es in elists:
+                    for combo in itertools.product(modes, repeat=len(es)):
+                        body = [el('node', [('id', x)]) for x in ids]
+                        for k, ((a, b), mode) in enumerate(zip(es, combo)):
+                            attrs = [('source', a), ('target', b)]
+                            if mode == 2:
+                                attrs.append(('directed', 'true' if und else 'false'))
+                            ch = []
+                            if mode >= 1 and wk is not None:
+                                ch.append(el('data', [('key', 'w')], {'int': ['3', '-3'], 'double': ['0.5', '1.25']}[wk][k]))
+                            body.append(el('edge', attrs, None, ch))
+                        tree = el('graphml', [], None, key + [el('graph', [('edgedefault', 'undirected' if und else 'directed')], None, body)])
+                        out.append(tree)
+    return out
+
+
+PT = {'PBool': 'bool', 'PInt': 'int', 'PFloat': 'float', 'PNone': 'float', 'PStr': 'str'}
+
+
+def _pv(v):
+    if v[0] == 'PB':
+        return v[1]
+    if v[0] == 'PI':
+        return v[1]
+    if v[0] == 'PF':
+        return Fraction(v[1], v[2])
+    return v[1]
+
+
+def conv_gm_model(v):
+    """Coq `gm_view` value -> comparable dict."""
+    if v[0] == 'inl':
+        return {'err': v[1][0]}
+    (n, dtype, dense, ncoo, names, (nattr, eattr), meta) = v[1]
+
+    def cols(x):
+        if x is None:
+            return None
+        return {nm: {'kind': PT[ty[0]], 'values': [_pv(c) for c in vals]} for (nm, ty, vals) in x[1]}
+
+    def od(x):
+        return None if x is None else x[1]
+    m = None
+    if meta is not None:
+        desc, attrs = meta[1]
+        m = {}
+        if desc is not None:
+            m['description'] = desc[1]
+        if attrs is not None:
+            dn, de = attrs[1]
+            m['attributes'] = {'node': {k: od(t) for k, t in dn}, 'edge': {k: od(t) for k, t in de}}
+    return {'n': n, 'dtype': PT[dtype[0]], 'dense': [[Fraction(a, b) for (a, b) in row] for row in dense],
+            'names': None if names is None else list(names[1]), 'node_attribute': cols(nattr), 'edge_attribute': cols(eattr), 'meta': m}
+
+
+def conv_gm_impl(r):
+    if 'ok' not in r:
+        return {'err': r.get('err', 'crash'), 'detail': r}
+    o = r['ok']
+
+    def cols(x):
+        if x is None:
+            return None
+        return {nm: {'kind': c['kind'], 'values': [Fraction(v) if c['kind'] == 'float' else v for v in c['values']]} for nm, c in x.items()}
+    return {'n': o['n'], 'dtype': o['dtype'], 'dense': [[Fraction(v) for v in row] for row in o['dense']], 'names': o['names'],
+            'node_attribute': cols(o['node_attribute']), 'edge_attribute': cols(o['edge_attribute']), 'meta': o['meta']}
+
+
+def _close(a, b):
+    if isinstance(a, Fraction) and isinstance(b, Fraction) and not isinstance(a, bool):
+        return a == b or abs(a - b) <= Fraction(1, 10 ** 12) * max(1, abs(b))
+    return type(a) is type(b) and a == b
+
+
+def gm_same(model, got):
+    """Model and implementation agree: exactly, except that a decimal literal that is not a binary fraction is compared with rel 1e-12."""
+    if ('err' in model) != ('err' in got):
+        return False
+    if 'err' in model:
+        return model['err'] == got['err']
+    for k in ('n', 'dtype', 'names', 'meta'):
+        if model[k] != got[k]:
+            return False
+    if [len(r) for r in model['dense']] != [len(r) for r in got['dense']] or \
+            not all(_close(a, b) for ra, rb in zip(model['dense'], got['dense']) for a, b in zip(ra, rb)):
+        return False
+    for k in ('node_attribute', 'edge_attribute'):
+        a, b = model[k], got[k]
+        if (a is None) != (b is None):
+            return False
+        if a is not None:
+            if list(a) != list(b):
+                return False
+            for nm in a:
+                if a[nm]['kind'] != b[nm]['kind'] or len(a[nm]['values']) != len(b[nm]['values']) or \
+                        not all(_close(x, y) for x, y in zip(a[nm]['values'], b[nm]['values'])):
+                    return False
+    return True
+
+
+def _jsv(x):
+    if isinstance(x, Fraction):
+        return float(x) if x.denominator != 1 else int(x)
+    if isinstance(x, dict):
+        return {k: _jsv(v) for k, v in x.items()}
+    if isinstance(x, (list, tuple)):
+        return [_jsv(v) for v in x]
+    return x
+
+
+def part_graphml_model(ctx, impl, rng, quick, root):
+    sub = os.path.join(root, 'gmlm')
+    cases = []      # (family, tree, call, in_quantifier, ns, pretty)
+    for k, tree in enumerate(gml_small_exhaustive()):
+        cases.append(('exhaustive_small', tree, {}, True, k % 2 == 0, k % 3 == 0))
+    for fam, tree, call, inq in gml_fixed_families():
+        for ns in (True, False):
+            cases.append((fam, tree, call, inq, ns, not ns))
+    for k in range(300 if quick else 4000):
+        tree, call, tags = gen_gml(rng)
+        fam = 'random_%s%s' % ('undirected' if tags['undirected'] else 'directed', '_canonical' if tags['canonical'] else '')
+        cases.append((fam, tree, {kk: v for kk, v in call.items() if v is not None}, True, rng.random() < 0.6, rng.random() < 0.5))
+    texts, exprs = [], []
+    for fam, tree, call, inq, ns, pretty in cases:
+        text = serialise(tree, ns=ns, pretty=pretty)
+        parsed = et_tree(text)
+        if not same_tree(tree, parsed, ns):
+            raise RuntimeError('harness: the GraphML serialiser does not round-trip: %r' % (text[:400],))
+        texts.append(text)
+        exprs.append('gm_view (from_graphml %s %d %s)' % (cstr(call.get('weight_key', 'weight')), call.get('max_string_size', 512), coq_xml(parsed)))
+    model = model_eval(ctx, 'c18gml', ['Base.Util', 'Model.Graphml'], exprs, prelude=STR_PRELUDE)
+    for idx, ((fam, tree, call, inq, ns, pretty), text) in enumerate(zip(cases, texts)):
+        r = impl.call('c18', 'graphml_doc', dict(root=sub, text=text, **call), timeout=30)
+        ctx.traces += 1
+        got = conv_gm_impl(r)
+        edges = [c for g in tree[3] if g[0] == 'graph' for c in g[3] if c[0] == 'edge']
+        ctx.count('graphml:' + fam, ('gmlm', text, sorted(call.items())), inq and len(edges) > 0 and 'err' not in got)
+        case = dict(text=text, **call)
+        mv = None
+        if model is not None:
+            mv = conv_gm_model(model[idx])
+            if mv.get('err') == 'Unmodelled':
+                ctx.margin_dropped += 1
+            elif not gm_same(mv, got):
+                report(ctx, 'from_graphml', 'implementation differs from the model', case=case, expected=_jsv(mv), observed=_jsv(got),
+                       kind='correspondence', family=fam)
+        if not inq:
+            continue
+        exp = gml_reading(tree, call.get('weight_key', 'weight'))
+        if exp is None:
+            continue
+        if 'err' in got:
+            report(ctx, 'from_graphml', 'raises on a valid document', case=case, expected=_jsv(exp), observed=got.get('detail'),
+                   defect=gml_defect(tree, call, None, exp), family=fam)
+            continue
+        problems = []
+        if got['n'] != exp['n']:
+            problems.append('nodes')
+        if got['names'] != (None if exp['names'] is None else [x[:512] for x in exp['names']]):
+            problems.append('names')
+        if got['n'] == exp['n'] and not all(_close(a, b) for ra, rb in zip(got['dense'], exp['dense']) for a, b in zip(ra, rb)):
+            problems.append('edges/weights/direction')
+        if problems:
+            report(ctx, 'from_graphml', 'parsed graph differs from the document (%s)' % ', '.join(problems), case=case,
+                   expected=_jsv(exp), observed=_jsv({k2: got[k2] for k2 in ('n', 'names', 'dense', 'dtype')}),
+                   defect=gml_defect(tree, call, got, exp), family=fam)
+        if fam == 'attributes' and ns and call == {}:
+            ctx.sample(dict(kind='graphml_model', text=text, model=_jsv(mv), impl=_jsv(got)), limit=8)
+    shutil.rmtree(sub, ignore_errors=True)
+
+
+def gml_defect(tree, call, got, exp):
+    """Stable label of the known ways from_graphml loses weights."""
+    wk = call.get('weight_key', 'weight')
+    keys = [dict(c[1]) for c in tree[3] if c[0] == 'key']
+    named = [k for k in keys if k.get('attr.name') == wk]
+    if any(k.get('for', 'all') not in ('edge', 'all') for k in named):
+        return 'graphml_node_key_named_weight'
+    if any(k.get('attr.type') == 'boolean' for k in named):
+        return 'graphml_boolean_cast'
+    if got is not None and named:
+        nodefault = el(tree[0], tree[1], tree[2], [el(c[0], c[1], c[2], [d for d in c[3] if d[0] != 'default']) if c[0] == 'key' and dict(c[1]).get('attr.name') == wk
+                                                    else c for c in tree[3]])
+        alt = gml_reading(nodefault, wk)
+        if alt is not None and got['n'] == alt['n'] and all(_close(a, b) for ra, rb in zip(got['dense'], alt['dense']) for a, b in zip(ra, rb)):
+            return 'graphml_weight_default_ignored'
+    return 'other'
